@@ -11,9 +11,19 @@ classes, suites
   * flag-struct  : enum.__members__ (canonical names of aliases), mask, non-compound cases, CPython `cls(v)`
   * enum-aliases : which names CPython turns into aliases (== / hash) vs the model's pyEq
   * name-style   : convert_snake_style vs the model on ASCII names x 16 styles
+  * multi-bind   : ONE provider bound to SEVERAL predicates (class objects, P[cls], P[a, b], field-name strings,
+                   regexes, P[Holder].field; decoys of the other family) and several classes of the population on ONE
+                   shared retort, loaders / dumpers requested in varying orders (loader first / dumper first, class
+                   order permuted, at top level or as a dataclass field): the complete enum-codec / flag-codec
+                   evaluation (oracle + model) on what the shared retort hands out (multi-enum-codec,
+                   multi-flag-codec), 'behaves like the provider bound to this class alone' (direct oracle), and
+                   bind-select: the provider the Lean model of bound_by_any / recipe search / retort cache selects
+                   for every request of the history
 Direct oracle (real code only, Python): creation succeeds for every class the documentation does not exclude,
 load(dump(m)) is m for every member / combination, the dumped form is the documented one, and a candidate datum is
-accepted iff it is (up to Python ==) the representation of a member, everything else raising LoadError.
+accepted iff it is (up to Python ==) the representation of a member, everything else raising LoadError; a provider
+bound to several predicates gives every class named by one of them that same representation for loader and dumper,
+whatever was requested from the retort before, and leaves every other class with the built-in one.
 """
 
 import enum
@@ -39,7 +49,12 @@ CLAIM = {
         "single-bit members (the full statement is refuted by a witness: known finding); each loader accepts "
         "exactly the representations of members and answers every other datum with a LoadError; creation of loader "
         "and dumper cannot fail for a non-empty flag class with convertible names (zero member, aliases, compound, "
-        "multi-bit). The model is tied to the code by five correspondences on generated real classes."
+        "multi-bit). Which representation applies: bound_by_any is an `any` over the predicates "
+        "(bound_by_any_applies_iff, order-independent), the recipe search takes the first accepting provider "
+        "(select_first_match), what a retort with caches answers does not depend on its request history "
+        "(served_independent_of_history), loader and dumper of a class get the same representation and the round trip "
+        "holds for every class bound through any of several predicates (multi_bound_enum_rt / multi_bound_flag_rt). "
+        "The model is tied to the code by eight correspondences on generated real classes."
     ),
     "note": (
         "Trusted: Lean 4.33 kernel; axioms audited each run (subset of propext, Classical.choice, Quot.sound). The "
@@ -53,7 +68,9 @@ CLAIM = {
 }
 PROPS_FILE = "AdaptixProofs/Props/C18.lean"
 LEAN_TARGETS = ["AdaptixProofs.Props.C18", "drv_c18"]
-RULE = ("a case is one (class, provider configuration, datum or member/combination) evaluation on the real library; "
+RULE = ("a case is one (class, provider configuration, datum or member/combination) evaluation on the real library "
+        "(kinds 'multi:*': the loader / dumper came from a retort shared by several classes whose provider is bound to "
+        "two or more predicates); "
         "it is non-trivial when the loader accepts the datum or the round trip of a member / a combination of at "
         "least one flag is exercised (rejections of junk are counted as trivial)")
 ASSUMPTIONS = [
@@ -70,6 +87,9 @@ ASSUMPTIONS = [
     "and is not fed to this check",
     "instances of the class itself passed as data are compared with the model but only judged by the oracle where the "
     "code states its intent (exact-value loader of a class without mixed-in type rejects them)",
+    "multi-bind: predicates are class objects, P[cls], P[a, b], field-name strings, regexes matching one field name and "
+    "P[Holder].field; request sites are the class at top level or as the only field of a dataclass; the binding model "
+    "covers these forms only (generic / nested locations belong to C09)",
 ]
 TRUSTED = [
     "CPython 3.12 Enum.__new__ / Flag._missing_ / Flag.__or__ / __contains__ as modelled (validated by the enum-codec, "
@@ -480,6 +500,23 @@ def run_loader(loader, datum, cls, ok_of):
 # enum providers: one (class, provider configuration) evaluation
 # ---------------------------------------------------------------------------
 
+KF_UNNAMED_BIT = "flag-list:allow_compound=False:bits-without-single-bit-member-dropped"
+
+
+def oracle_hooks(ctx: Ctx, env):
+    """ctx.fail / ctx.note_case; inside the multi-bind suite every failure signature and every evidence kind carries
+    the prefix 'multi-bind:' / 'multi:' (the known finding keeps its signature: it is the same defect there)"""
+    if env is None:
+        return ctx.fail, (lambda c, nontrivial, kind=None: ctx.note_case(c, nontrivial=nontrivial, kind=kind))
+
+    def fail(sig, what, c):
+        ctx.fail(sig if sig == KF_UNNAMED_BIT else "multi-bind:" + sig, env["where"] + what, c)
+
+    def note(c, nontrivial, kind=None):
+        ctx.note_case(c, nontrivial=nontrivial, kind="multi:" + kind if kind else None)
+    return fail, note
+
+
 JUNK = [d_none(), d_int(0), d_int(1), d_int(2), d_int(-1), d_bool(True), d_bool(False), d_float(1), d_float(0),
         d_str(""), d_str("A"), d_str("a"), d_str("1"), d_opaque(0), d_opaque(1), d_opaque(4), d_list([]),
         d_list([d_int(1)]), d_tuple([]), d_tuple([d_int(1)]), d_mapping([]), d_mapping([d_str("A")]),
@@ -591,15 +628,23 @@ def enum_expected(cls, cfg, d, obj, doc):
     return None
 
 
-def eval_enum(ctx: Ctx, spec, cfg, rng=None, with_model=True):
-    """runs one configuration on the real library, evaluates the direct oracle, returns (request, real canonical)"""
+def eval_enum(ctx: Ctx, spec, cfg, rng=None, with_model=True, env=None):
+    """runs one configuration on the real library, evaluates the direct oracle, returns (request, real canonical).
+    env (multi-bind suite): the class, the provider's map and the loader / dumper were obtained elsewhere (from a
+    retort shared by several classes whose provider is bound to several predicates); cfg is then the representation
+    the class is *expected* to have there"""
     rng = rng or ctx.rng
-    cls = build_enum(spec)
-    case0 = {"suite": "enum-codec", "cls": spec, "provider": cfg}
-    pymap = build_pymap(cls, cfg.get("map")) if cfg["kind"] == "name" else None
-    retort = make_retort(enum_provider(cls, cfg, pymap), True, cfg.get("debug_trail"))
-    l_tag, loader = canon_create(lambda: retort.get_loader(cls))
-    d_tag, dumper = canon_create(lambda: retort.get_dumper(cls))
+    fail, note = oracle_hooks(ctx, env)
+    if env is None:
+        cls = build_enum(spec)
+        case0 = {"suite": "enum-codec", "cls": spec, "provider": cfg}
+        pymap = build_pymap(cls, cfg.get("map")) if cfg["kind"] == "name" else None
+        retort = make_retort(enum_provider(cls, cfg, pymap), True, cfg.get("debug_trail"))
+        l_tag, loader = canon_create(lambda: retort.get_loader(cls))
+        d_tag, dumper = canon_create(lambda: retort.get_dumper(cls))
+    else:
+        cls, case0, pymap = env["cls"], env["case0"], env["pymap"] if cfg["kind"] == "name" else None
+        (l_tag, loader), (d_tag, dumper) = env["loader"], env["dumper"]
     label = cfg["kind"] + (":" + cfg["tp"] if cfg["kind"] == "value" else "")
     # documented mapping (names only)
     doc = None
@@ -613,7 +658,7 @@ def eval_enum(ctx: Ctx, spec, cfg, rng=None, with_model=True):
     if convertible:
         for what, tag in (("loader", l_tag), ("dumper", d_tag)):
             if tag != "ok":
-                ctx.fail(f"enum-{cfg['kind']}:creation-fails", f"creating the {what} of an Enum class for provider {cfg} "
+                fail(f"enum-{cfg['kind']}:creation-fails", f"creating the {what} of an Enum class for provider {cfg} "
                          f"fails ({l_tag if what == 'loader' else d_tag}); members {spec['pairs']}", case0)
     real = {"loader": l_tag, "dumper": d_tag, "loads": [], "dumps": []}
     members = list(cls)
@@ -628,7 +673,7 @@ def eval_enum(ctx: Ctx, spec, cfg, rng=None, with_model=True):
                 real["dumps"].append(enc_val(out))
             except Exception as e:  # noqa: BLE001
                 real["dumps"].append({"esc": type(e).__name__})
-                ctx.fail(f"enum-{cfg['kind']}:dump-raises", f"dumping member {m!r} with {cfg} raises {type(e).__name__}",
+                fail(f"enum-{cfg['kind']}:dump-raises", f"dumping member {m!r} with {cfg} raises {type(e).__name__}",
                          dict(case0, member=m.name))
                 continue
             c = dict(case0, member=m.name)
@@ -639,16 +684,16 @@ def eval_enum(ctx: Ctx, spec, cfg, rng=None, with_model=True):
                 expect = m.value
                 good = out is m.value or (type(out) is type(m.value) and py_eq(out, m.value))
             if not good:
-                ctx.fail(f"enum-{cfg['kind']}:dump-not-documented-representation",
+                fail(f"enum-{cfg['kind']}:dump-not-documented-representation",
                          f"{label}: member {m.name} of {spec['pairs']} with {cfg} dumps to {out!r}, documented "
                          f"representation is {expect!r}", c)
             covered = cfg["kind"] != "value" or cfg["tp"] == "any" or \
                 type(m.value) is {"int": int, "str": str, "bool": bool}[cfg["tp"]]
-            ctx.note_case(c, nontrivial=True, kind=f"enum-{label}-roundtrip")
+            note(c, nontrivial=True, kind=f"enum-{label}-roundtrip")
             if loader is not None and injective and covered:
                 o, res = run_loader(loader, out, cls, lambda r: r.name if isinstance(r, cls) else repr(r))
                 if res is not m:
-                    ctx.fail(f"enum-{cfg['kind']}:round-trip", f"{label}: load(dump({m.name})) gives {o} instead of the "
+                    fail(f"enum-{cfg['kind']}:round-trip", f"{label}: load(dump({m.name})) gives {o} instead of the "
                              f"member; class {spec['pairs']} provider {cfg}", c)
     # -- candidate data
     data = enum_candidates(cls, spec, sorted(set((doc or {}).values())), rng, 40)
@@ -664,19 +709,20 @@ def eval_enum(ctx: Ctx, spec, cfg, rng=None, with_model=True):
             o, res = run_loader(loader, obj, cls, lambda r: r.name if isinstance(r, cls) else repr(r))
             real["loads"].append(o)
             c = dict(case0, datum=d)
-            ctx.note_case(c, nontrivial="ok" in o, kind=f"enum-{label}-" + ("accept" if "ok" in o else o.get("err", "escape")))
+            note(c, nontrivial="ok" in o, kind=f"enum-{label}-" + ("accept" if "ok" in o else o.get("err", "escape")))
             exp = enum_expected(cls, cfg, d, obj, doc)
             if "esc" in o:
-                ctx.fail(f"enum-{cfg['kind']}:escape", f"{label}: datum {obj!r} makes the loader raise {o['esc']} "
+                fail(f"enum-{cfg['kind']}:escape", f"{label}: datum {obj!r} makes the loader raise {o['esc']} "
                          f"(not a LoadError); class {spec['pairs']} provider {cfg}", c)
             elif exp == "skip":
                 pass
             elif exp is None and "ok" in o:
-                ctx.fail(f"enum-{cfg['kind']}:accepts-non-representation", f"{label}: datum {obj!r} is not the "
+                fail(f"enum-{cfg['kind']}:accepts-non-representation", f"{label}: datum {obj!r} is not the "
                          f"representation of a member of {spec['pairs']} but loads as {o['ok']}; provider {cfg}", c)
             elif exp is not None and ("ok" not in o or not any(res is m for m in exp)):
-                ctx.fail(f"enum-{cfg['kind']}:rejects-representation", f"{label}: datum {obj!r} is the representation "
+                fail(f"enum-{cfg['kind']}:rejects-representation", f"{label}: datum {obj!r} is the representation "
                          f"of {[m.name for m in exp]} of {spec['pairs']} but the loader answers {o}; provider {cfg}", c)
+    real["_data"], real["_values"] = data, members
     if cfg["kind"] == "exact" and loader is not None and getattr(loader, "__name__", "") in (
             "enum_exact_loader_v2m", "enum_exact_loader"):
         real["path"] = "v2m" if loader.__name__.endswith("v2m") else "fallback"
@@ -724,9 +770,6 @@ def compare_enum(rep, real):
 # ---------------------------------------------------------------------------
 # flag providers: one (class, provider configuration) evaluation
 # ---------------------------------------------------------------------------
-
-KF_UNNAMED_BIT = "flag-list:allow_compound=False:bits-without-single-bit-member-dropped"
-
 
 def popcount1(v):
     return v > 0 and v & (v - 1) == 0
@@ -827,14 +870,19 @@ def flag_list_expected(cls, cfg, d, obj, allowed_doc):
     return value
 
 
-def eval_flag(ctx: Ctx, spec, cfg, rng=None, with_model=True):
+def eval_flag(ctx: Ctx, spec, cfg, rng=None, with_model=True, env=None):
     rng = rng or ctx.rng
-    cls = build_flag(spec)
-    case0 = {"suite": "flag-codec", "cls": spec, "provider": cfg}
-    pymap = build_pymap(cls, cfg.get("map")) if cfg["kind"] == "list" else None
-    retort = make_retort(flag_provider(cfg, pymap), cfg.get("strict_coercion", True), cfg.get("debug_trail"))
-    l_tag, loader = canon_create(lambda: retort.get_loader(cls))
-    d_tag, dumper = canon_create(lambda: retort.get_dumper(cls))
+    fail, note = oracle_hooks(ctx, env)
+    if env is None:
+        cls = build_flag(spec)
+        case0 = {"suite": "flag-codec", "cls": spec, "provider": cfg}
+        pymap = build_pymap(cls, cfg.get("map")) if cfg["kind"] == "list" else None
+        retort = make_retort(flag_provider(cfg, pymap), cfg.get("strict_coercion", True), cfg.get("debug_trail"))
+        l_tag, loader = canon_create(lambda: retort.get_loader(cls))
+        d_tag, dumper = canon_create(lambda: retort.get_dumper(cls))
+    else:
+        cls, case0, pymap = env["cls"], env["case0"], env["pymap"] if cfg["kind"] == "list" else None
+        (l_tag, loader), (d_tag, dumper) = env["loader"], env["dumper"]
     kind = cfg["kind"]
     mask = reduce(or_, (int(v) for _n, v in spec["pairs"]), 0)
     nonneg = all(int(v) >= 0 for _n, v in spec["pairs"])
@@ -859,16 +907,16 @@ def eval_flag(ctx: Ctx, spec, cfg, rng=None, with_model=True):
     # -- creation oracle
     excluded = not nonneg or (kind == "exact" and gaps) or not convertible
     if kind == "exact" and nonneg and gaps and l_tag != "cannot_provide":
-        ctx.fail("flag-exact:creation-of-excluded-class", f"flag {spec['pairs']} has skipped bits: the loader creation "
+        fail("flag-exact:creation-of-excluded-class", f"flag {spec['pairs']} has skipped bits: the loader creation "
                  f"must be refused with ProviderNotFoundError, got {l_tag}", case0)
     if kind == "exact" and d_tag != "ok":
-        ctx.fail("flag-exact:creation-fails", f"creating the exact-value dumper of flag {spec['pairs']} fails", case0)
+        fail("flag-exact:creation-fails", f"creating the exact-value dumper of flag {spec['pairs']} fails", case0)
     if not excluded:
         for what, tag in (("loader", l_tag), ("dumper", d_tag)):
             if tag != "ok":
-                ctx.fail(f"flag-{kind}:creation-fails", f"creating the {what} of flag class {spec['pairs']} "
+                fail(f"flag-{kind}:creation-fails", f"creating the {what} of flag class {spec['pairs']} "
                          f"({spec['kind']}, boundary {spec.get('boundary')}) with provider {cfg} fails: "
-                         f"{creation_error(lambda: getattr(retort, 'get_' + what)(cls))}", case0)
+                         f"{creation_error(lambda: getattr(retort, 'get_' + what)(cls)) if env is None else tag}", case0)
     real = {"loader": l_tag, "dumper": d_tag, "loads": [], "dumps": []}
     if not nonneg:
         return None, real          # outside the model (and the documentation)
@@ -883,14 +931,14 @@ def eval_flag(ctx: Ctx, spec, cfg, rng=None, with_model=True):
                 out = dumper(v)
             except Exception as e:  # noqa: BLE001
                 real["dumps"].append({"esc": type(e).__name__})
-                ctx.fail(f"flag-{kind}:dump-raises", f"dumping {v!r} of {spec['pairs']} with {cfg} raises "
+                fail(f"flag-{kind}:dump-raises", f"dumping {v!r} of {spec['pairs']} with {cfg} raises "
                          f"{type(e).__name__}", c)
                 continue
-            ctx.note_case(c, nontrivial=v._value_ != 0, kind=f"flag-{kind}-roundtrip")
+            note(c, nontrivial=v._value_ != 0, kind=f"flag-{kind}-roundtrip")
             if kind == "exact":
                 real["dumps"].append(enc_val(out))
                 if type(out) is not int or out != v._value_:
-                    ctx.fail("flag-exact:dump-not-documented-representation", f"{v!r} dumps to {out!r}", c)
+                    fail("flag-exact:dump-not-documented-representation", f"{v!r} dumps to {out!r}", c)
             else:
                 wf = type(out) is list and all(type(s) is str for s in out)
                 real["dumps"].append(list(out) if wf else repr(out))
@@ -898,18 +946,18 @@ def eval_flag(ctx: Ctx, spec, cfg, rng=None, with_model=True):
                     dumps.append(out)
                 if allowed_doc is not None and not (wf and all(
                         s in allowed_doc and any(b & v._value_ == b for b in allowed_doc[s]) for s in out)):
-                    ctx.fail("flag-list:dump-not-documented-representation", f"{v!r} of {spec['pairs']} with {cfg} "
+                    fail("flag-list:dump-not-documented-representation", f"{v!r} of {spec['pairs']} with {cfg} "
                              f"dumps to {out!r}: not a list of documented names of members contained in the value", c)
             if loader is None or (kind == "list" and not injective):
                 continue
             o, res = run_loader(loader, out, cls, lambda r: r._value_ if isinstance(r, cls) else repr(r))
             if res is not v:
                 if kind == "list" and not cfg["compound"] and v._value_ & ~single_union:
-                    ctx.fail(KF_UNNAMED_BIT, f"flag_by_member_names(allow_compound=False): {v!r} of {spec['pairs']} "
+                    fail(KF_UNNAMED_BIT, f"flag_by_member_names(allow_compound=False): {v!r} of {spec['pairs']} "
                              f"dumps to {out!r} and loads back as {o}: bits that have no single-bit member of their "
                              f"own are silently dropped", c)
                 else:
-                    ctx.fail(f"flag-{kind}:round-trip", f"load(dump({v!r})) gives {o}; dumped {out!r}; class "
+                    fail(f"flag-{kind}:round-trip", f"load(dump({v!r})) gives {o}; dumped {out!r}; class "
                              f"{spec['pairs']} ({spec['kind']}, boundary {spec.get('boundary')}) provider {cfg}", c)
     # -- candidate data
     if kind == "exact":
@@ -939,9 +987,9 @@ def eval_flag(ctx: Ctx, spec, cfg, rng=None, with_model=True):
             o, res = run_loader(loader, obj, cls, lambda r: r._value_ if isinstance(r, cls) else repr(r))
             real["loads"].append(o)
             c = dict(case0, datum=d)
-            ctx.note_case(c, nontrivial="ok" in o, kind=f"flag-{kind}-" + ("accept" if "ok" in o else o.get("err", "escape")))
+            note(c, nontrivial="ok" in o, kind=f"flag-{kind}-" + ("accept" if "ok" in o else o.get("err", "escape")))
             if "esc" in o:
-                ctx.fail(f"flag-{kind}:escape", f"{kind}: datum {obj!r} makes the loader of flag {spec['pairs']} "
+                fail(f"flag-{kind}:escape", f"{kind}: datum {obj!r} makes the loader of flag {spec['pairs']} "
                          f"({spec['kind']}, boundary {spec.get('boundary')}) raise {o['esc']} (not a LoadError); "
                          f"provider {cfg}", c)
                 continue
@@ -961,11 +1009,12 @@ def eval_flag(ctx: Ctx, spec, cfg, rng=None, with_model=True):
             if exp == "skip":
                 continue
             if exp is None and "ok" in o:
-                ctx.fail(f"flag-{kind}:accepts-non-representation", f"{kind}: datum {obj!r} is not the representation "
+                fail(f"flag-{kind}:accepts-non-representation", f"{kind}: datum {obj!r} is not the representation "
                          f"of a value of {spec['pairs']} but loads as {o['ok']}; provider {cfg}", c)
             elif exp is not None and ("ok" not in o or res is not cls(exp)):
-                ctx.fail(f"flag-{kind}:rejects-representation", f"{kind}: datum {obj!r} represents value {exp} of "
+                fail(f"flag-{kind}:rejects-representation", f"{kind}: datum {obj!r} represents value {exp} of "
                          f"{spec['pairs']} but the loader answers {o}; provider {cfg}", c)
+    real["_data"], real["_values"] = data, values
     ctx.sample({"suite": "flag-codec", "cls": spec, "provider": cfg, "dumps": real["dumps"][:4],
                 "loads": list(zip(data[:3], real["loads"][:3]))}, every=131)
     if not with_model:
@@ -1200,6 +1249,362 @@ NEGATIVE_FLAGS = [
 
 
 # ---------------------------------------------------------------------------
+# multi-bind: ONE representation provider bound to SEVERAL predicates, several classes on one shared retort
+# ---------------------------------------------------------------------------
+# group : {"suite": "multi-bind",
+#          "classes":   [{"family": "enum"|"flag", "spec": <class spec>, "site": "top"|"field"}],
+#          "providers": [{"family": "enum"|"flag", "cfg": <provider cfg; map keys {"k":"member","c":i,"v":attr}>,
+#                         "preds": [{"form": "cls"|"P"|"Ptuple"|"str"|"re"|"Ppath", "cs": [class index, ...]}]}],
+#          "strict_coercion": bool, "debug_trail": ..., "order": <name>, "plan": [[class index, "loader"|"dumper"]]}
+# Class i is requested either at top level (retort.get_loader(cls_i)) or as the only field `f<i>` of a dataclass
+# `H<i>` (retort.get_loader(H_i); data wrapped as {"f<i>": datum}) - the place where str / regex / P[H].f predicates
+# apply.  The property (documentation of `preds`: "the provider will be applied if any predicates meet the
+# conditions"): class i has the provider's representation iff one of the predicates matches its request site - for
+# loader AND dumper, whatever was requested from the retort before.
+
+PRED_FORMS = ["cls", "cls", "cls", "P", "P", "str", "re", "Ppath"]
+ORDERS = ["loaders-first", "dumpers-first", "class-loader-dumper", "class-dumper-loader", "shuffled"]
+
+
+def pred_matches(pred, i, site):
+    """independent statement of the predicate system for the forms used here"""
+    if i not in pred["cs"]:
+        return False
+    if pred["form"] in ("cls", "P", "Ptuple"):
+        return True                      # the type of the location, wherever it is
+    return site == "field"               # a field name / a path ending in the field: only where there is a field
+
+
+def gen_multi_name_cfg(rng, classes, members_of):
+    all_names = sorted({n for ms in members_of for n in ms})
+    cfg = {"style": None, "map": None}
+    r = rng.random()
+    if r < 0.15:
+        return cfg
+    if r < 0.6 or r >= 0.85:
+        cfg["style"] = rng.choice(STYLES)
+    if r >= 0.6:
+        rows = []
+        for _ in range(rng.randint(1, 5)):
+            q = rng.random()
+            if q < 0.45:
+                key = {"k": "name", "v": rng.choice(all_names + ["NOPE"])}
+            elif q < 0.9:
+                ci = rng.randrange(len(classes))
+                key = {"k": "member", "c": ci, "v": rng.choice(members_of[ci])}
+            else:
+                key = {"k": "foreign", "v": rng.randrange(len(FOREIGN))}
+            rows.append([key, rng.choice(MAPPED + all_names[:4])])
+        cfg["map"] = rows
+    return cfg
+
+
+def gen_group(rng, enum_specs, flag_specs):
+    main = rng.choice(["enum", "flag"])
+    pool = {"enum": enum_specs, "flag": [s for s in flag_specs if all(int(v) >= 0 for _n, v in s["pairs"])]}
+    other = "flag" if main == "enum" else "enum"
+    k = rng.choice([2, 2, 3, 3, 4])
+    classes = [{"family": main, "spec": rng.choice(pool[main])} for _ in range(k)]
+    if rng.random() < 0.3:
+        classes.insert(rng.randrange(len(classes) + 1), {"family": other, "spec": rng.choice(pool[other])})
+    for c in classes:
+        c["site"] = "field" if rng.random() < 0.35 else "top"
+    built = [(build_enum if c["family"] == "enum" else build_flag)(c["spec"]) for c in classes]
+    members_of = [list(b.__members__) for b in built]
+    n = len(classes)
+    providers = []
+    for pi in range(1 if rng.random() < 0.7 else 2):
+        fam = main if pi == 0 or rng.random() < 0.7 else other
+        if fam == "enum":
+            r = rng.random()
+            if r < 0.12:
+                cfg = {"kind": "exact", "explicit": True}
+            elif r < 0.3:
+                cfg = {"kind": "value", "tp": rng.choice(["int", "str", "bool", "any"])}
+            else:
+                cfg = dict(gen_multi_name_cfg(rng, classes, members_of), kind="name")
+        else:
+            if rng.random() < 0.15:
+                cfg = {"kind": "exact", "explicit": True}
+            else:
+                cfg = dict(gen_multi_name_cfg(rng, classes, members_of), kind="list", single=rng.random() < 0.5,
+                           dups=rng.random() < 0.5, compound=rng.random() < 0.6)
+        # predicates: at least two, every one names a class of the group; a class may be named more than once
+        chosen = [i for i in range(n) if rng.random() < 0.75]
+        while len(chosen) < 2:
+            chosen.append(rng.randrange(n))
+        rng.shuffle(chosen)
+        preds = []
+        for i in chosen:
+            form = rng.choice(PRED_FORMS)
+            if form == "P" and preds and preds[-1]["form"] == "P" and rng.random() < 0.5:
+                preds[-1] = {"form": "Ptuple", "cs": preds[-1]["cs"] + [i]}      # P[A, B]: one predicate, two classes
+            else:
+                preds.append({"form": form, "cs": [i]})
+        if len(preds) < 2:
+            preds.append({"form": rng.choice(PRED_FORMS), "cs": [rng.randrange(n)]})
+        providers.append({"family": fam, "cfg": cfg, "preds": preds})
+    order = rng.choice(ORDERS)
+    perm = list(range(n))
+    rng.shuffle(perm)
+    if order == "loaders-first":
+        plan = [[i, "loader"] for i in perm] + [[i, "dumper"] for i in perm]
+    elif order == "dumpers-first":
+        plan = [[i, "dumper"] for i in perm] + [[i, "loader"] for i in perm]
+    elif order == "class-loader-dumper":
+        plan = [[i, d] for i in perm for d in ("loader", "dumper")]
+    elif order == "class-dumper-loader":
+        plan = [[i, d] for i in perm for d in ("dumper", "loader")]
+    else:
+        plan = [[i, d] for i in perm for d in ("loader", "dumper")]
+        rng.shuffle(plan)
+    return {"suite": "multi-bind", "classes": classes, "providers": providers,
+            # enum_by_value is modelled (and judged by the oracle) under strict coercion only
+            "strict_coercion": (rng.random() < 0.6) or main == "enum" or any(p["cfg"]["kind"] == "value"
+                                                                             for p in providers),
+            "debug_trail": rng.choice([None, "DISABLE", "FIRST", "ALL"]), "order": order, "plan": plan}
+
+
+def unwrap_exc(e):
+    """debug_trail=ALL wraps the field's error into an exception group of the model"""
+    while getattr(e, "exceptions", None) and len(e.exceptions) == 1:
+        e = e.exceptions[0]
+    return e
+
+
+def site_codec(retort, site, cls, holder, fname, direction):
+    """the loader / dumper of the class as requested at its site (may raise like get_loader / get_dumper)"""
+    if site == "top":
+        return retort.get_loader(cls) if direction == "loader" else retort.get_dumper(cls)
+    if direction == "loader":
+        hl = retort.get_loader(holder)
+
+        def field_loader(data):
+            try:
+                return getattr(hl({fname: data}), fname)
+            except Exception as e:  # noqa: BLE001
+                raise unwrap_exc(e) from None
+        return field_loader
+    hd = retort.get_dumper(holder)
+
+    def field_dumper(value):
+        try:
+            return hd(holder(value))[fname]
+        except Exception as e:  # noqa: BLE001
+            raise unwrap_exc(e) from None
+    return field_dumper
+
+
+def multi_pymap(built, map_spec):
+    if map_spec is None:
+        return None
+    out = {}
+    for key, mapped in map_spec:
+        if key["k"] == "name":
+            out[key["v"]] = mapped
+        elif key["k"] == "member":
+            out[built[key["c"]].__members__[key["v"]]] = mapped
+        else:
+            out[FOREIGN[key["v"]]] = mapped
+    return out
+
+
+def make_bound_provider(cfg, pymap, preds):
+    """the facade call a user writes: the representation provider with the predicates as positional arguments"""
+    from typing import Any
+
+    from adaptix import (
+        NameStyle,
+        enum_by_exact_value,
+        enum_by_name,
+        enum_by_value,
+        flag_by_exact_value,
+        flag_by_member_names,
+    )
+    style = NameStyle[cfg["style"]] if cfg.get("style") else None
+    k = cfg["kind"]
+    if "single" in cfg:
+        return flag_by_member_names(*preds, allow_single_value=cfg["single"], allow_duplicates=cfg["dups"],
+                                    allow_compound=cfg["compound"], name_style=style, map=pymap)
+    if k == "name":
+        return enum_by_name(*preds, name_style=style, map=pymap)
+    if k == "value":
+        return enum_by_value(*preds, tp={"int": int, "str": str, "bool": bool, "any": Any}[cfg["tp"]])
+    if cfg["family"] == "enum":
+        return enum_by_exact_value(*preds)
+    return flag_by_exact_value(*preds)
+
+
+def real_pred(pred, built, holders):
+    from adaptix import P
+    i = pred["cs"][0]
+    form = pred["form"]
+    if form == "cls":
+        return built[i]
+    if form == "P":
+        return P[built[i]]
+    if form == "Ptuple":
+        return P[tuple(built[j] for j in pred["cs"])]
+    if form == "str":
+        return f"f{i}"
+    if form == "re":
+        return f"f{i}$"                   # not an identifier: compiled as a regular expression for the field name
+    return getattr(P[holders[i]], f"f{i}")
+
+
+def py_select(group, i):
+    """independent reading of the documentation: the first provider of the recipe that is for this family of classes
+    (enum providers are for Enum classes that are not flags, flag providers for Flag classes) and one of whose
+    predicates matches the request site; None = the built-in representation (exact value).  Whether the provider can
+    then build the loader is not part of the choice (the refusal of flag_by_exact_value for a class with skipped bits
+    is final: the built-in provider would refuse as well)"""
+    c = group["classes"][i]
+    for pi, p in enumerate(group["providers"]):
+        if p["family"] == c["family"] and any(pred_matches(pr, i, c["site"]) for pr in p["preds"]):
+            return pi
+    return None
+
+
+def bind_request(group):
+    """the group as the Lean op `bind` sees it"""
+    classes = [{"family": c["family"]} for c in group["classes"]]
+    provs = [{"family": p["family"], "kind": p["cfg"]["kind"], "preds": p["preds"]} for p in group["providers"]]
+    return {"op": "bind", "classes": classes, "providers": provs,
+            "history": [{"cls": i, "field": group["classes"][i]["site"] == "field", "dir": d} for i, d in group["plan"]]}
+
+
+def fingerprint(family, cls, loader, dumper, data, values):
+    """observable behaviour of one (loader, dumper) pair on fixed data / members"""
+    ok_of = (lambda r: r.name if isinstance(r, cls) else repr(r)) if family == "enum" else \
+        (lambda r: r._value_ if isinstance(r, cls) else repr(r))
+    loads = dumps = None
+    if loader[1] is not None:
+        loads = [run_loader(loader[1], dec_val(d, cls), cls, ok_of)[0] for d in data]
+    if dumper[1] is not None:
+        dumps = []
+        for v in values:
+            try:
+                dumps.append(repr(dumper[1](v)))
+            except Exception as e:  # noqa: BLE001
+                dumps.append({"esc": type(e).__name__})
+    return {"loader": [loader[0], loads], "dumper": [dumper[0], dumps]}
+
+
+def eval_group(ctx: Ctx, group, rng=None, with_model=True, model_sel=None):
+    """one shared retort, every class of the group: the whole single-class oracle (and model request) on the loaders /
+    dumpers obtained in the order of the plan + 'same behaviour as the provider bound to this class alone'.
+    Returns (jobs for the representation model, (compared, disagreements) of the bind-select correspondence)"""
+    import dataclasses
+
+    from adaptix import DebugTrail, Retort
+    rng = rng or ctx.rng
+    classes = group["classes"]
+    built = [(build_enum if c["family"] == "enum" else build_flag)(c["spec"]) for c in classes]
+    holders = [dataclasses.make_dataclass(f"H{i}", [(f"f{i}", b)]) for i, b in enumerate(built)]
+    pymaps = [multi_pymap(built, p["cfg"].get("map")) for p in group["providers"]]
+    kw = {"debug_trail": DebugTrail[group["debug_trail"]]} if group["debug_trail"] is not None else {}
+
+    def retort_of(recipe):
+        return Retort(strict_coercion=group["strict_coercion"], recipe=recipe, **kw)
+
+    shared = retort_of([make_bound_provider(dict(p["cfg"], family=p["family"]), pymaps[pi],
+                                            [real_pred(pr, built, holders) for pr in p["preds"]])
+                        for pi, p in enumerate(group["providers"])])
+    got = {}
+    for i, direction in group["plan"]:
+        got[i, direction] = canon_create(
+            lambda: site_codec(shared, classes[i]["site"], built[i], holders[i], f"f{i}", direction))
+    ctx.dist["multi:groups"] += 1
+    ctx.dist[f"multi:order={group['order']}"] += 1
+    for p in group["providers"]:
+        ctx.dist[f"multi:provider={p['family']}-{p['cfg']['kind']}:preds={len(p['preds'])}"] += 1
+        for pr in p["preds"]:
+            ctx.dist[f"multi:pred-form={pr['form']}"] += 1
+    jobs, compared, disagreements = [], 0, 0
+    refs = {}
+
+    def reference(i, sel):
+        """the class alone: a fresh retort whose recipe is the selected provider bound to this one class (the
+        single-predicate path of bound_by_any), or nothing at all"""
+        if (i, sel) not in refs:
+            recipe = []
+            if sel is not None:
+                p = group["providers"][sel]
+                recipe = [make_bound_provider(dict(p["cfg"], family=p["family"]), pymaps[sel], [built[i]])]
+            r = retort_of(recipe)
+            refs[i, sel] = {d: canon_create(lambda: site_codec(r, classes[i]["site"], built[i], holders[i], f"f{i}", d))
+                            for d in ("loader", "dumper")}
+        return refs[i, sel]
+
+    for i, c in enumerate(classes):
+        sel = {d: py_select(group, i) for d in ("loader", "dumper")}
+        case0 = {"suite": "multi-bind", "group": group, "target": i}
+        first = [d for j, d in group["plan"] if j == i][0]
+        ctx.dist[f"multi:class-site={c['site']}"] += 1
+        ctx.dist["multi:class-" + ("unbound" if sel["dumper"] is None else "bound")] += 1
+        ctx.dist[f"multi:first-request={first}"] += 1
+        where = (f"[multi-bind: class #{i} of a group of {len(classes)} on one shared retort, requested at "
+                 f"{c['site']} site, {first} first, order {group['order']}, providers "
+                 f"{[(p['cfg']['kind'], [(pr['form'], pr['cs']) for pr in p['preds']]) for p in group['providers']]}] ")
+        if sel["dumper"] is None:
+            cfg = {"kind": "exact", "explicit": False}
+        else:
+            cfg = dict(group["providers"][sel["dumper"]]["cfg"])
+        if "single" in cfg:
+            cfg["strict_coercion"] = group["strict_coercion"]
+        env = {"cls": built[i], "case0": case0, "where": where,
+               "pymap": pymaps[sel["dumper"]] if sel["dumper"] is not None else None,
+               "loader": got[i, "loader"], "dumper": got[i, "dumper"]}
+        ev = eval_enum if c["family"] == "enum" else eval_flag
+        req, real = ev(ctx, c["spec"], cfg, rng, with_model, env)
+        if req is not None:
+            jobs.append(("multi-" + c["family"] + "-codec", case0, cfg, req, real))
+        data, values = real.get("_data", []), real.get("_values", [])
+        shared_fp = fingerprint(c["family"], built[i], got[i, "loader"], got[i, "dumper"], data, values)
+        # direct oracle: same behaviour as the provider bound to this class alone
+        for d in ("loader", "dumper"):
+            ref = reference(i, sel[d])
+            ref_fp = fingerprint(c["family"], built[i], ref["loader"], ref["dumper"], data, values)
+            ctx.note_case(dict(case0, direction=d), nontrivial=sel[d] is not None, kind=f"multi:same-as-single-{d}")
+            if ref_fp[d] != shared_fp[d]:
+                what = "provider #%s bound to this class alone" % sel[d] if sel[d] is not None else \
+                    "built-in representation (no predicate matches)"
+                diff = first_difference(shared_fp[d], ref_fp[d], data if d == "loader" else values)
+                ctx.fail(f"multi-bind:{c['family']}:{d}-differs-from-single-predicate-provider",
+                         where + f"the {d} of class {c['spec']['pairs']} does not behave like the {what}: {diff}",
+                         dict(case0, direction=d))
+            # bind-select correspondence: the provider the Lean model of bound_by_any / the recipe search selects
+            if model_sel is not None:
+                msel = model_sel[i, d]
+                compared += 1
+                mref = reference(i, msel)
+                m_fp = ref_fp if msel == sel[d] else fingerprint(c["family"], built[i], mref["loader"], mref["dumper"],
+                                                                data, values)
+                if m_fp[d] != shared_fp[d]:
+                    disagreements += 1
+                    ctx.disagree("bind-select", dict(case0, direction=d),
+                                 first_difference(shared_fp[d], m_fp[d], data if d == "loader" else values),
+                                 f"model selects provider {msel}")
+    return jobs, (compared, disagreements)
+
+
+def first_difference(shared, ref, items):
+    if shared[0] != ref[0]:
+        return f"creation on the shared retort: {shared[0]}, reference: {ref[0]}"
+    for x, a, b in zip(items, shared[1] or [], ref[1] or []):
+        if a != b:
+            return f"on {x!r} the shared retort gives {a}, the reference {b}"
+    return "results differ"
+
+
+def model_selection(group, reply):
+    """reply of op `bind`: selected provider index (or null) per request of the plan"""
+    if "ok" not in reply:
+        raise InfraError(f"bind op failed: {reply}")
+    return {(i, d): sel for (i, d), sel in zip(map(tuple, group["plan"]), reply["ok"])}
+
+
+# ---------------------------------------------------------------------------
 # structure suites
 # ---------------------------------------------------------------------------
 
@@ -1301,7 +1706,7 @@ def suite_structure(ctx: Ctx, drv, enum_specs, flag_specs):
 # run / search / replay
 # ---------------------------------------------------------------------------
 
-def collect(ctx: Ctx, with_model: bool, n_enum: int, n_flag: int, n_name: int):
+def collect(ctx: Ctx, with_model: bool, n_enum: int, n_flag: int, n_name: int, n_groups: int = 0, drv=None):
     """evaluates the real library (with the direct oracle) and returns the model requests"""
     rng = ctx.rng
     jobs = []
@@ -1323,7 +1728,22 @@ def collect(ctx: Ctx, with_model: bool, n_enum: int, n_flag: int, n_name: int):
     for spec in NEGATIVE_FLAGS:
         for cfg in flag_cfgs(rng, spec, 0)[:2]:
             eval_flag(ctx, spec, cfg, rng, False)
+    # providers bound to several predicates, several classes of the population above on one shared retort
+    groups = [gen_group(rng, enum_specs, flag_specs) for _ in range(n_groups)]
+    sels = [None] * len(groups)
+    if drv is not None and groups:
+        sels = [model_selection(g, rep) for g, rep in zip(groups, drv.batch([bind_request(g) for g in groups]))]
+    compared = disagreements = 0
+    for g, sel in zip(groups, sels):
+        gjobs, (n, d) = eval_group(ctx, g, rng, with_model, sel)
+        jobs += gjobs
+        compared, disagreements = compared + n, disagreements + d
+    if drv is not None and groups:
+        ctx.suite("bind-select", compared, disagreements)
     return jobs, enum_specs, flag_specs
+
+
+N_GROUPS_QUICK, N_GROUPS_THOROUGH = 260, 3000
 
 
 def run(ctx: Ctx):
@@ -1334,23 +1754,25 @@ def run(ctx: Ctx):
         except InfraError:
             drv = None
     jobs, enum_specs, flag_specs = collect(ctx, drv is not None, ctx.budget(140, 1800), ctx.budget(140, 1800),
-                                           ctx.budget(3, 4))
+                                           ctx.budget(3, 4), ctx.budget(N_GROUPS_QUICK, N_GROUPS_THOROUGH), drv)
     if drv is not None:
         replies = drv.batch([j[3] for j in jobs])
-        counts = {"enum-codec": [0, 0], "flag-codec": [0, 0]}
+        counts = {"enum-codec": [0, 0], "flag-codec": [0, 0], "multi-enum-codec": [0, 0], "multi-flag-codec": [0, 0]}
         for (suite, spec, cfg, req, real), rep in zip(jobs, replies):
-            diff = (compare_enum if suite == "enum-codec" else compare_flag)(rep, real)
+            diff = (compare_enum if "enum" in suite else compare_flag)(rep, real)
             counts[suite][0] += len(req["data"]) + len(req["dump"]) + 2
             if diff is not None:
                 counts[suite][1] += 1
-                ctx.disagree(suite, {"suite": suite, "cls": spec, "provider": cfg}, diff, "see 'real' for the first difference")
+                case = spec if suite.startswith("multi-") else {"suite": suite, "cls": spec, "provider": cfg}
+                ctx.disagree(suite, case, diff, "see 'real' for the first difference")
         for suite, (n, d) in counts.items():
             ctx.suite(suite, n, d)
     suite_structure(ctx, drv, enum_specs, flag_specs)
     ctx.extra["exhaustive"] = False
     ctx.extra["exhaustive_part"] = ("per flag class: all unions of subsets of the distinct named members when there are "
                                     "at most 6 of them (every generated class), all 8 switch combinations of "
-                                    "flag_by_member_names; per enum class: all members")
+                                    "flag_by_member_names; per enum class: all members; per multi-bind group: every "
+                                    "class of the group, loader and dumper")
 
 
 def search(ctx: Ctx):
@@ -1361,8 +1783,10 @@ def search(ctx: Ctx):
             eval_enum(ctx, c["cls"], c["provider"], ctx.rng, False)
         elif c.get("suite") == "flag-codec":
             eval_flag(ctx, c["cls"], c["provider"], ctx.rng, False)
+        elif c.get("suite") == "multi-bind":
+            eval_group(ctx, c["group"], ctx.rng, False)
     if not ctx.failures:
-        collect(ctx, False, 250, 250, 3)
+        collect(ctx, False, 250, 250, 3, 400)
         style_self_examples(ctx)
 
 
@@ -1373,6 +1797,8 @@ def replay(ctx: Ctx, case) -> bool:
         eval_enum(ctx, case["cls"], case["provider"], ctx.rng, False)
     elif suite == "flag-codec":
         eval_flag(ctx, case["cls"], case["provider"], ctx.rng, False)
+    elif suite == "multi-bind":
+        eval_group(ctx, case["group"], ctx.rng, False)
     elif suite == "name-style":
         style_self_examples(ctx)
     else:
